@@ -457,6 +457,22 @@ impl<'a> ModelRun<'a> {
                 }
                 last
             }
+            Entry::User { sender, msg } => self.dispatch(sender, msg),
+            Entry::AccessorWrite { contract, write } => {
+                if let Some(c) = self.st.contracts.get_mut(contract) {
+                    match write {
+                        WriteOp::Set(k, v) => {
+                            c.store.insert(k.clone(), v.clone());
+                        }
+                        WriteOp::Remove(k) => {
+                            c.store.remove(k);
+                        }
+                    }
+                    Ok(MResp { events: vec![], data: None })
+                } else {
+                    Err(())
+                }
+            }
             Entry::SudoMint { to, coins } => self.st.mint(to, coins).map(|_| MResp { events: vec![], data: None }),
             Entry::SendHelper { from, to, coins } => {
                 let m = Msg::BankSend { to: Target::Addr(to.clone()), coins: coins.clone() };
